@@ -438,7 +438,8 @@ def run_solve(case, iter_hook=None, dykstra_log=None, x0_override=None, np_seed=
 class DykstraLog(object):
     """Replaces the name `dykstra` in every dfols module that imported it by a wrapper that calls the real routine
     with counting projector proxies. From the proxies alone it reconstructs the number of sweeps and the routine's
-    stopping quantity of the last sweep (the sum of squared moves between consecutive projector outputs), hence
+    stopping quantity of every sweep (replicating the routine's own increment arithmetic from the arguments and results the
+    proxies see), hence
     whether the call stopped by its rule or by the sweep cap."""
     MODS = (_M, _C, _S, _T)
 
@@ -451,7 +452,7 @@ class DykstraLog(object):
                 raise HarnessError("dfols internals changed: %s has no name 'dykstra'" % mod.__name__)
 
     def wrapped(self, P, x0, max_iter=100, tol=1e-10):
-        st_ = {"cnt": 0, "last": np.array(x0, dtype=float, copy=True), "cI": 0.0, "sweeps": []}
+        st_ = {"cnt": 0, "cI": 0.0, "sweeps": [], "y": [np.zeros(len(x0)) for _ in P]}
 
         def wrap(i, Pi):
             def w(v):
@@ -461,8 +462,13 @@ class DykstraLog(object):
                         st_["sweeps"].append(st_["cI"])
                     st_["cI"] = 0.0
                     st_["cnt"] += 1
-                st_["cI"] += float(np.linalg.norm(out - st_["last"]) ** 2)
-                st_["last"] = np.array(out, dtype=float, copy=True)
+                # the routine's own arithmetic, bit for bit: its new increment is out - v (v = prev_x - old increment is
+                # the argument it passes) and its stopping quantity sums ||old increment - new increment||^2. (The
+                # mathematically equal "squared move between consecutive outputs" differs in floating point when the
+                # increments are huge, e.g. start points 1e18 away: an earlier version raised a false alarm there.)
+                ynew = out - v
+                st_["cI"] += float(np.linalg.norm(st_["y"][i] - ynew) ** 2)
+                st_["y"][i] = np.array(ynew, dtype=float, copy=True)
                 return out
             return w
         x = self.real([wrap(i, Pi) for i, Pi in enumerate(P)], x0, max_iter=max_iter, tol=tol)
